@@ -194,7 +194,13 @@ def build(case):
         x = np.zeros(n) if case.get("x0", "zeros") == "zeros" else _vec(seed + 3, n, False)
         if case.get("b", "rand") == "zero":
             b = np.zeros(n)
-        alg = sp.alg.NewtonsMethod(lambda v: H @ v - b, lambda v: (lambda w: Hi @ w), x, max_iter=mi, tol=0)
+        if case.get("f") == "quartic":
+            # convex, non-quadratic: Newton needs several updates and its decrement shrinks gradually
+            gradf = (lambda v: H @ v - b + v ** 3)
+            inv_hess = (lambda v: (lambda w, _v=v: np.linalg.solve(H + 3 * np.diag(_v ** 2), w)))
+            alg = sp.alg.NewtonsMethod(gradf, inv_hess, x, max_iter=mi, tol=0)
+        else:
+            alg = sp.alg.NewtonsMethod(lambda v: H @ v - b, lambda v: (lambda w: Hi @ w), x, max_iter=mi, tol=0)
         return alg, (lambda: [alg.x]), nobreak, {}
     if k == "GerchbergSaxton":
         Am = _mat(seed, n + 1, n, True)
@@ -361,7 +367,8 @@ def st_instance(draw, kinds=ALG_KINDS, max_iter=st.integers(0, 12)):
         if c["f"] == "l1":
             c["accel"] = None
     if k == "Newton":
-        c.update(x0=draw(st.sampled_from(["zeros", "rand"])), b=draw(st.sampled_from(["rand", "zero"])))
+        c.update(x0=draw(st.sampled_from(["zeros", "rand"])), b=draw(st.sampled_from(["rand", "zero"])),
+                 f=draw(st.sampled_from(["quadratic", "quartic", "quartic"])))
         c["cplx"] = False
     if k in ("AltMin", "ALM", "ADMM", "SDMM"):
         c["cplx"] = False
